@@ -618,7 +618,19 @@ pub fn hostile(_tier: Tier, w: &Arc<World>) -> Scn {
     let mut scripts: Vec<Vec<(Ns, Target, Vec<u8>)>> = vec![vec![]; nsrc];
     let mut sample = vec![];
     for i in 0..ndg {
-        let bytes = hostile_datagram(&d);
+        let bytes = if flood {
+            // nothing in a flood decodes: unknown opcodes, runts, requests without terminators, broken UTF-8
+            match d.range("hostile.flood.kind", 6) {
+                0 => vec![0, 9, 1, 2, 3],
+                1 => vec![0xff, 0xff],
+                2 => vec![7],
+                3 => vec![],
+                4 => vec![0, 1, b'a', b'b', b'c'],
+                _ => vec![0, 1, 0xc3, 0x28, 0, b'o', b'c', b't', b'e', b't', 0],
+            }
+        } else {
+            hostile_datagram(&d)
+        };
         if sample.len() < 3 {
             sample.push(rfc::summary(&bytes));
         }
